@@ -1,5 +1,5 @@
 From Coq Require Import ZArith Lia Bool.
-From LX Require Import Base.IntWrap Model.Downmix.
+From LX Require Import Base.IntWrap Generated.Consts Model.Downmix.
 Local Open Scope Z_scope.
 Ltac Zify.zify_post_hook ::= Z.div_mod_to_equations.
 
@@ -134,7 +134,7 @@ Proof. unfold buffer_size. destruct mono, eightbit; lia. Qed.
 Lemma out_units_bound mono t : 8 <= t <= XMP_MAX_FRAMESIZE / 2 ->
   out_units mono t = (if mono then t else 2 * t) /\ out_units mono t <= XMP_MAX_FRAMESIZE.
 Proof.
-  change (XMP_MAX_FRAMESIZE / 2) with 12292. unfold out_units, XMP_MAX_FRAMESIZE. intros H.
+  change (XMP_MAX_FRAMESIZE / 2) with 12292. unfold out_units, XMP_MAX_FRAMESIZE, Generated.Consts.C_XMP_MAX_FRAMESIZE. intros H.
   destruct mono; cbv zeta.
   - destruct (Z.ltb_spec 24585 t); lia.
   - destruct (Z.ltb_spec 24585 (t * 2)); lia.
